@@ -43,4 +43,5 @@ def replay(o):
 def tasks(tier, seed):
     return _tasks_core(tier, seed) + [
         func("bt.core.StrategyBase.allocate"),
+        func("bt.core.SecurityBase.transact"),       # what a trade costs - spread, custom-price slippage, commission - is never booked as a flow
     ]
